@@ -16,7 +16,7 @@
 (*   rd    read calls issued; failAt: the read call that fails (0 = none)  *)
 (*   out   bytes accepted by the writer; budget: bytes it still accepts    *)
 (*         (-1 = unlimited)                                                *)
-(*   st    run | ok | err | unspec (left the specified region) | fuel      *)
+(*   st    run | ok | err | unspec (left the specified region) | blowup | fuel *)
 (*   evs   history: the snapshot after every completed statement           *)
 (*   acts  history: the machine actions exercised                          *)
 (*                                                                         *)
@@ -194,7 +194,9 @@ LastN(m, n) == SubSeq(m.V, Len(m.V) - n + 1, Len(m.V))
 Stop(m, st) == [m EXCEPT !.st = st, !.K = <<>>]
 Fail(m) == Stop(m, "err")
 Unspec(m) == Stop(m, "unspec")
-OfR(m, r) == IF r = "err" THEN Fail(m) ELSE Unspec(m)        \* r \in {"err", "unk", "blowup"}
+Blown(m) == Stop(m, "blowup")              \* the next step needs unbounded time or memory (a string repeated 1e30 times): not executed
+UnspecV(m, v) == IF v.why = "resource" THEN Blown(m) ELSE Unspec(m)      \* v an Unk value
+OfR(m, r) == IF r = "err" THEN Fail(m) ELSE IF r = "blowup" THEN Blown(m) ELSE Unspec(m)        \* r \in {"err", "unk", "blowup"}
 
 Snapshot(m, s) ==
   [line |-> s.line, cf |-> Cf(m),
@@ -349,7 +351,7 @@ Step(m) ==
          ELSE [m1 EXCEPT !.K = <<FEval(s.operand), [f |-> "mutInto", s |-> s, p |-> p]>> \o rest]
     [] k = "mutInto" ->
          LET r == Mutate(fr.s.op, TopV(m), fr.p) m1 == [m EXCEPT !.V = PopVs(m, 1)] IN
-         IF IsErr(r) THEN Fail(m1) ELSE IF IsUnk(r) THEN Unspec(m1)
+         IF IsErr(r) THEN Fail(m1) ELSE IF IsUnk(r) THEN UnspecV(m1, r)
          ELSE [m1 EXCEPT !.K = <<FWr(fr.s.dest, WSet(r))>> \o rest]
     [] k = "rockK" -> [m EXCEPT !.K = <<FWr(fr.a, WPush(LastN(m, fr.n)))>> \o rest, !.V = PopVs(m, fr.n)]
     [] k = "rollK" ->
@@ -359,10 +361,10 @@ Step(m) ==
     [] k = "drop" -> [m EXCEPT !.K = rest, !.V = PopVs(m, 1)]
     [] k = "idxK" ->
          LET vs == LastN(m, 2) r == Index(vs[1], vs[2]) m1 == [m EXCEPT !.V = PopVs(m, 2)] IN
-         IF IsErr(r) THEN Fail(m1) ELSE IF IsUnk(r) THEN Unspec(m1) ELSE [m1 EXCEPT !.K = rest, !.V = Append(m1.V, r)]
+         IF IsErr(r) THEN Fail(m1) ELSE IF IsUnk(r) THEN UnspecV(m1, r) ELSE [m1 EXCEPT !.K = rest, !.V = Append(m1.V, r)]
     [] k = "unK" ->
          LET r == IF fr.op = "neg" THEN Negate(TopV(m)) ELSE Not(TopV(m)) m1 == [m EXCEPT !.V = PopVs(m, 1)] IN
-         IF IsErr(r) THEN Fail(m1) ELSE IF IsUnk(r) THEN Unspec(m1) ELSE [m1 EXCEPT !.K = rest, !.V = Append(m1.V, r)]
+         IF IsErr(r) THEN Fail(m1) ELSE IF IsUnk(r) THEN UnspecV(m1, r) ELSE [m1 EXCEPT !.K = rest, !.V = Append(m1.V, r)]
     [] k = "binK" ->
          IF fr.rest = <<>> THEN [m EXCEPT !.K = rest]
          ELSE IF fr.op \in LogicOps THEN
@@ -375,7 +377,7 @@ Step(m) ==
          ELSE [m EXCEPT !.K = <<FEval(Head(fr.rest)), [f |-> "binApply", op |-> fr.op, rest |-> Tail(fr.rest)]>> \o rest]
     [] k = "binApply" ->
          LET vs == LastN(m, 2) r == BinOp(fr.op, vs[1], vs[2]) m1 == [m EXCEPT !.V = PopVs(m, 2)] IN
-         IF IsErr(r) THEN Fail(m1) ELSE IF IsUnk(r) THEN Unspec(m1)
+         IF IsErr(r) THEN Fail(m1) ELSE IF IsUnk(r) THEN UnspecV(m1, r)
          ELSE [m1 EXCEPT !.V = Append(m1.V, r), !.K = <<[f |-> "binK", op |-> fr.op, rest |-> fr.rest]>> \o rest]
     [] k = "callGo" ->
          LET fn == fr.fn n == Len(fn.ps) args == LastN(m, n) m1 == [m EXCEPT !.V = PopVs(m, n)] IN
